@@ -212,6 +212,8 @@ def build_case(rng, tier):
     expected = [st.expected_txn(lay, r, name) for r in rows]
     case = {'layout': lay, 'rows': rows, 'settings': settings, 'source': name, 'text': st.render(lay, rows),
             'expected': expected, 'faults': []}
+    if rng.random() < 0.15:
+        case['stderr_broken'] = rng.choice(['stderr', 'stderr', 'both'])
     classes = list(CLASSES)
     if lay['mode'] == 2:
         classes.remove('empty-description')
@@ -331,6 +333,10 @@ def execute(case, scratch):
         plan = {'net': 'down'}
         if reads:
             plan['reads'] = {'data/s.csv': reads}
+        if case.get('stderr_broken'):
+            # nobody reads the diagnostics (stderr closed / on a full disk): every write to it fails.  What the reader returns is
+            # what it returns otherwise
+            plan['stdout_fault'] = {'after_effect': -1, 'stream': 'both' if case['stderr_broken'] == 'both' else 'stderr'}
         r = proc.run_func(world, lambda: parse_file(path, case['settings'], case['source']), plan, ctl_parent=ctlp)
         if r.exit != 0 or r.result is None:
             raise proc.HarnessError('parse process failed: %s' % r.err[-1500:])
